@@ -26,11 +26,11 @@ import threading
 from pathlib import Path
 
 from pddl_plus_parser.exporters import DomainExporter, ProblemExporter, TrajectoryExporter
-from pddl_plus_parser.lisp_parsers import DomainParser, ProblemParser
+from pddl_plus_parser.lisp_parsers import DomainParser, ProblemParser, TrajectoryParser
 from pddl_plus_parser.models import (Domain, Operator, PDDLConstant, PDDLFunction, PDDLObject, PDDLType,
                                      Predicate, State)
 from pddl_plus_parser.models import pddl_domain as _pddl_domain
-from pddl_plus_parser.multi_agent import MultiAgentDomainsConverter
+from pddl_plus_parser.multi_agent import MultiAgentDomainsConverter, PlanConverter
 
 TMP = Path(os.environ.get("VERIF_WORK", "/verif/work")) / "C07" / "tmp"
 
@@ -348,6 +348,7 @@ class Ctx:
         self.sts = []                              # (State, Problem-or-None)
         self.ops = []                              # Operator objects
         self.plans = []                            # lists of TrajectoryTriplet (results of parse_plan)
+        self.plan_info = []                        # (domain handle, problem-state handle) of each plan
         self.files = {}
         self.indep = indep                         # Indep or None
 
@@ -558,6 +559,7 @@ def execute(op, ctx, register=True):
                 ctx.ops.append(t.operator)
                 ctx.sts.append((t.next_state, None))
             ctx.plans.append(trips)
+            ctx.plan_info.append((op["dom"], op["objs"]))
         r = state_res(trips[-1].next_state)
         r.update({"new": "P", "refused": refused, "n": len(trips), "base_s": base_s, "base_o": base_o,
                   "traj": hashlib.sha1(json.dumps([state_res(t.next_state)["canon"] for t in trips]).encode()).hexdigest()[:12]})
@@ -569,6 +571,57 @@ def execute(op, ctx, register=True):
         lines = TrajectoryExporter.export(trips)
         return {"len": len(lines), "ops": hashlib.sha1("".join(l for l in lines if l.startswith("(operator")).encode()).hexdigest()[:12],
                 "canon": hashlib.sha1(json.dumps([state_res(t.next_state)["canon"] for t in trips]).encode()).hexdigest()[:12]}
+    if k == "convert_plan":
+        # PlanConverter.convert_plan: a sequential plan regrouped into joint actions; simulates the plan on temporaries
+        # (operators, successor states) starting from a State over the PROBLEM'S OWN initial dicts; returns action calls
+        dom = ctx.doms[op["dom"]]
+        prob = ctx.sts[op["objs"]][1]
+        calls = list(op["calls"])
+        if op.get("filter"):
+            # keep the calls that are applicable one after the other (the converter refuses any other plan)
+            cur, kept = State(prob.initial_state_predicates, prob.initial_state_fluents, is_init=True), []
+            for c in calls:
+                try:
+                    o = Operator(dom.actions[c["call"].strip("()").split()[0]], dom, list(c["args"]))
+                    if o.is_applicable(cur):
+                        cur = o.apply(cur)
+                        kept.append(c)
+                except Exception:
+                    pass
+            calls = kept
+        path = ctx.wdir / ("seqplan_%d.solution" % abs(hash(json.dumps(op, sort_keys=True))))
+        path.write_text("".join("%s\n" % c["call"] for c in calls))
+        joint = PlanConverter(dom).convert_plan(prob, path, agent_names=list(op["agents"]),
+                                                should_validate_concurrency_constraint=bool(op.get("validate", True)))
+        r = text_res("\n".join(str(j) for j in joint))
+        r.update({"steps": len(calls), "joint": len(joint)})
+        return r
+    if k == "parse_traj":
+        # the trajectory of an earlier plan written to a file and read back by TrajectoryParser (with the plan's problem,
+        # or without one: objects deduced from the first state).  Every State of the observation becomes a live value:
+        # component 0's previous state, then per component its next state and (from the second component on) its
+        # previous state, which is a copy of the preceding next state.
+        trips = ctx.plans[op["plan"]]
+        di, pj = ctx.plan_info[op["plan"]]
+        path = ctx.wdir / ("traj_%d.trajectory" % op["plan"])
+        with open(path, "wt") as f:
+            f.writelines(TrajectoryExporter.export(trips))
+        prob = None if op.get("noprob") else ctx.sts[pj][1]
+        obs = TrajectoryParser(ctx.doms[di], prob).parse_trajectory(path)
+        sts, parsed = [], []
+        for i, c in enumerate(obs.components):
+            sts += [c.previous_state, c.next_state]
+            parsed += ([c.previous_state] if i == 0 else []) + [c.next_state]
+        base_s = len(ctx.sts)
+        if register:
+            for st in sts:
+                ctx.sts.append((st, None))
+        return {"new": "T", "n": len(obs.components), "base_s": base_s, "dom": di, "pj": pj,
+                # sorted: the insertion order of a successor's fluent keys (hence of the text read back) depends on the order
+                # in which the operator's address-hashed effect groups were applied, which differs from run to run
+                "fluents": [sorted(st.state_fluents.keys()) for st in parsed],
+                "canon": hashlib.sha1(json.dumps([state_res(st)["canon"] for st in sts]).encode()).hexdigest()[:12],
+                "objects": sorted(obs.grounded_objects)}
     if k == "export_problem":
         prob = ctx.sts[op["st"]][1]
         t = ProblemExporter().extract_problem(prob)
@@ -589,7 +642,8 @@ def execute(op, ctx, register=True):
 
 
 QUERY = {"applicable", "apply", "copy", "serialize", "typed_serialize", "state_objects", "str_op", "str_action",
-         "export", "triplet", "plan", "export_traj", "export_problem", "str_domain", "state_eq"}
+         "export", "triplet", "plan", "export_traj", "export_problem", "str_domain", "state_eq", "parse_traj",
+         "convert_plan"}
 
 
 def strip(res):
@@ -630,7 +684,7 @@ def run_history(job, wdir, shared_domains=None, oracle=True, watch=None, mark_st
             op["objs"] = pj
             if pj is None:
                 op["objs"] = None
-        if op["k"] in ("triplet", "plan"):
+        if op["k"] in ("triplet", "plan", "convert_plan"):
             pj, _ = problem_of(ctx, op["objs"])
             if pj is None:
                 steps.append({"op": raw, "skipped": True})
@@ -736,6 +790,7 @@ def history(job):
             out["statics_changed_while_building_independent_world"] = indep.build_log or built
         if indep is not None:
             out["indep_world"] = {"states": len(indep.states), "calls_skipped": indep.skipped}
+        out["n_statics"] = len(s0)
         return out
     finally:
         shutil.rmtree(wdir, ignore_errors=True)
